@@ -317,6 +317,10 @@ func (r *runner) barOptions(i int) (mpb.BarFiller, []mpb.BarOption) {
 		x.Fills = append(x.Fills, FillEv{Step: mcrt.Step(), Bar: i, Cur: st.Current, Tot: st.Total, Refill: st.Refill,
 			Completed: st.Completed, Aborted: st.Aborted, Avail: st.AvailableWidth})
 		if bs.FillErrAt != 0 && nfill >= bs.FillErrAt {
+			if x.FaultStep == 0 {
+				x.FaultStep = mcrt.Step()
+				x.FaultText = errFill.Error()
+			}
 			return errFill
 		}
 		flags := ""
@@ -353,6 +357,10 @@ func (r *runner) barOptions(i int) (mpb.BarFiller, []mpb.BarOption) {
 		opts = append(opts, mpb.BarExtender(mpb.BarFillerFunc(func(w io.Writer, st decor.Statistics) error {
 			next++
 			if bs.ExtErrAt != 0 && next >= bs.ExtErrAt {
+				if x.FaultStep == 0 {
+					x.FaultStep = mcrt.Step()
+					x.FaultText = errExt.Error()
+				}
 				return errExt
 			}
 			for k := 0; k < bs.ExtRows; k++ {
